@@ -898,6 +898,9 @@ impl<M: ConvexCellMarker + 'static> ConvexCell<M> {
     pub fn vh_boundary_cycle(&self) -> &SimpleCycle {
         &self.boundary
     }
+    pub fn vh_has_face_data(&self) -> bool {
+        self.faces.is_some() && self.face_vertex_connections.is_some()
+    }
     /// The oriented tetrahedra (plane index, base triangle) of the decomposition, in order.
     pub fn vh_decompose(&self) -> Vec<(usize, [DVec3; 3])> {
         self.decompose().map(|tet| (tet.plane_idx, tet.vertices)).collect()
